@@ -97,6 +97,8 @@ class CreateCheck:
             "shapes include a child named like the root and payload files "
             "named like the output metafile",
             "piece length 2^25 (thorough also 2^20, 2^24) with tiny files",
+            "a sub-catalogue with all-zero file contents and one with a "
+            "content root whose name has dots and a space",
             "long single files in S: every size up to 2200 (thorough 4200) "
             "bytes at B=2, i.e. up to 1100 (2100) blocks / pieces, so counts "
             "pass 257, 513, 1025, 2049; thorough adds real files of 257, 258, "
@@ -124,16 +126,16 @@ class CreateCheck:
         # R, trees
         if quick:
             shapes3 = ["D2", "D2n", "D3", "D3s", "D3o", "D3u", "D3n", "D3t",
-                       "D3d", "D3p", "D3b"]
+                       "D3d", "D3p", "D3b", "D3num"]
             shapes4 = ["D4"]
             Ps = [16384, 32768]
         else:
             shapes3 = ["D2", "D2n", "D3", "D3s", "D3o", "D3u", "D3x", "D3n",
-                       "D3t", "D3d", "D3p", "D3b"]
+                       "D3t", "D3d", "D3p", "D3b", "D3num"]
             shapes4 = ["D4", "D4n", "D5"]
             Ps = [16384, 32768, 65536]
         if pid in ("C02", "C03", "C10") and quick:
-            shapes3 = ["D2n", "D3", "D3o", "D3u", "D3n", "D3t", "D3d", "D3p", "D3b"]
+            shapes3 = ["D2n", "D3", "D3o", "D3u", "D3n", "D3t", "D3d", "D3p", "D3b", "D3num"]
         for P in Ps:
             for sh in shapes3 + shapes4:
                 n = world.nfiles(sh)
@@ -184,6 +186,21 @@ class CreateCheck:
                     gs.append({"kind": "dense", "scale": "R", "B": REAL_B,
                                "P": P, "shape": "S1", "sizes": [sz],
                                "seed": seed, "listing": "native"})
+        # all-zero file contents (data that hashes like padding would) and a
+        # content root whose own name has dots and a space
+        for variant in ({"content": "zero"}, {"rootname": "my.archive v1.tar"}):
+            for scale, B, P, shapes in (("R", REAL_B, 32768, ("S1", "D2n")),
+                                        ("S", 2, 4, ("S1", "D2n", "D3"))):
+                for sh in shapes:
+                    n = world.nfiles(sh)
+                    alpha = e1.r_alphabet(P, "quick", n) if scale == "R" \
+                        else e1.s_sizes(P, "quick", n)
+                    for g in e1.size_groups(sh, alpha):
+                        gs.append(dict({"kind": "tree", "scale": scale,
+                                        "B": B, "P": P, "shape": sh,
+                                        "alpha": alpha, "first": g["first"],
+                                        "seed": seed, "listing": "native",
+                                        "cli": scale == "R"}, **variant))
         # R, the largest piece lengths the validator accepts, tiny files
         # (padding / zero-extension longer than 16 MiB)
         for P in ([1 << 25] if quick else [1 << 20, 1 << 24, 1 << 25]):
@@ -231,8 +248,8 @@ class CreateCheck:
         files = world.files_of(w, seed)
         tree = dict(files)
         parent = world.fresh_dir()
-        path = world.materialize(files, parent)
-        name = world.ROOT_NAME
+        name = w.get("rootname") or world.ROOT_NAME
+        path = world.materialize(files, parent, name=name)
         out = {}
         trans = 0
         tf.reset_process_state()
@@ -322,6 +339,10 @@ class CreateCheck:
         for sizes in size_iter:
             w = {"scale": g["scale"], "B": g["B"], "P": g["P"],
                  "shape": g["shape"], "sizes": sizes}
+            if g.get("content") == "zero":
+                w["cids"] = ["zero"] * len(sizes)
+            if g.get("rootname"):
+                w["rootname"] = g["rootname"]
             obs, trans = self.observe(w, seed, cli=g.get("cli", False),
                                       listing=g.get("listing", "native"))
             res.states += 1
